@@ -212,6 +212,7 @@ type execSpec struct {
 	LockPaths  []string
 	LockIDs    []string
 	NeedCreds  bool
+	CredsElsewhere bool // with NeedCreds: the credential helper is configured but holds credentials for another host only
 	Rewrite    *rewriteSpec // client URL rewriting configuration (git configuration and oracle facts are both derived from it)
 	// hash-algo clause
 	ExpectFailStep int // index of the step that must fail when the server named an unsupported hash algorithm (-1: none)
@@ -232,10 +233,15 @@ func runSpec(sp *execSpec) vx.Result {
 	facts := &scenarioFacts{Asked: map[string]int64{}, AskedSizes: map[string]map[int64]bool{}, Refs: map[string]bool{"refs/heads/" + sp.Branch: true}, LockPaths: map[string]bool{}, LockIDs: map[string]bool{}}
 	for oid, n := range t.asked {
 		facts.Asked[oid] = n
-		facts.AskedSizes[oid] = map[int64]bool{n: true}
+		facts.AskedSizes[oid] = map[int64]bool{}
+		if n >= 0 { // n < 0: the oid of a hand-written pointer whose size field is beyond int64 - there is no size the caller can ask with
+			facts.AskedSizes[oid][n] = true
+		}
 	}
 	for _, h := range t.hand {
-		facts.AskedSizes[h.Oid][h.Size] = true
+		if h.Size >= 0 {
+			facts.AskedSizes[h.Oid][h.Size] = true
+		}
 	}
 	for oid, sizes := range sp.ExtraAsked {
 		if _, ok := facts.Asked[oid]; !ok {
@@ -286,7 +292,11 @@ func runSpec(sp *execSpec) vx.Result {
 	defer in.w.Close()
 	if sp.NeedCreds {
 		store := filepath.Join(in.w.Root, "credstore")
-		os.WriteFile(store, []byte("http://user:pass@"+strings.TrimPrefix(srv.URL, "http://")+"\n"), 0600)
+		credHost := strings.TrimPrefix(srv.URL, "http://")
+		if sp.CredsElsewhere {
+			credHost = "elsewhere.invalid"
+		}
+		os.WriteFile(store, []byte("http://user:pass@"+credHost+"\n"), 0600)
 		b, _ := os.ReadFile(filepath.Join(in.w.Home, ".gitconfig"))
 		os.WriteFile(filepath.Join(in.w.Home, ".gitconfig"), append(b, []byte("[credential]\n\thelper = store --file="+store+"\n")...), 0644)
 	}
@@ -404,6 +414,29 @@ func runSpec(sp *execSpec) vx.Result {
 	}
 	sort.Strings(ks)
 	r.Outcome = sp.Part + " exits=" + strings.Join(exits, "") + " reqs=" + strings.Join(ks, ",")
+	if sp.Part == "authenticated" {
+		// what Authorization the action requests and the API requests carried
+		cls := map[string]bool{}
+		for _, q := range reqs {
+			who := "api"
+			if q.Kind == "other" {
+				who = "action-" + q.Method
+			}
+			a := q.hget("Authorization")
+			switch {
+			case a == "":
+				a = "none"
+			case a == sp.Cfg.ActionHeader["Authorization"]:
+				a = "offered"
+			case strings.HasPrefix(a, "Basic "):
+				a = "credentials"
+			default:
+				a = "other"
+			}
+			cls[who+":"+a] = true
+		}
+		r.Outcome += " authorization={" + strings.Join(keys(cls), ",") + "}"
+	}
 	if srv.MirrorURL != "" {
 		// where the requests went: API / action requests that reached the second listener (the <base> of the rewriting rules)
 		mh := strings.TrimPrefix(srv.MirrorURL, "http://")
@@ -985,6 +1018,41 @@ func buildParts(c *vx.Check) []part {
 		return runSpec(sp)
 	}})
 
+	// ---- authenticated: the `authenticated` member of a batch response entry x what the action offers x whether the client could
+	// add credentials of its own (access mode configured for the action URLs, credential helper holding credentials) - WITHOUT
+	// any 401.  batch.md: "authenticated - Optional boolean specifying whether the request for this specific object is
+	// authenticated.  If omitted or false, Git LFS will attempt to find credentials for this URL."
+	authModes := []string{"true", "false", "omitted"}
+	type accessDef struct{ name, cfg string }
+	accessDefs := []accessDef{
+		{"access-unset", ""},
+		{"access-basic-for-action-urls", "[lfs \"{{URL}}" + lfsPrefix + "/storage\"]\n\taccess = basic\n[lfs \"{{URL}}" + lfsPrefix + "/verify\"]\n\taccess = basic\n"},
+		{"access-basic-for-api-url", "[lfs \"{{URL}}" + lfsPrefix + "\"]\n\taccess = basic\n"},
+	}
+	adOps := []opDef{ops[0], ops[2]}
+	adSets := []string{"one"}
+	if th {
+		adOps = ops[:5]
+		adSets = []string{"one", "three"}
+	}
+	c.Bounds["authenticated"] = fmt.Sprintf("authenticated {true, false, member omitted} x {action offers Authorization, none} x %d access configurations (lfs.<url>.access unset / basic for the storage and verify URL prefixes / basic for the API URL, a prefix of every href) x {credential helper holds credentials for the host, only for another host} x %d ops (upload + verify actions, download actions) x %d file sets; no 401 anywhere", len(accessDefs), len(adOps), len(adSets))
+	parts = append(parts, part{"authenticated", func(x *vx.X) vx.Result {
+		am := authModes[x.In(len(authModes))]
+		withAuth := x.In(2) == 0
+		ad := accessDefs[x.In(len(accessDefs))]
+		haveCreds := x.In(2) == 0
+		op := adOps[x.In(len(adOps))]
+		set := adSets[x.In(len(adSets))]
+		hdr := map[string]string{"X-C18-Token": "t"}
+		if withAuth {
+			hdr["Authorization"] = "Bearer c18-action-token"
+		}
+		sp := &execSpec{Part: "authenticated", Branch: "main", Set: set, Steps: op.Steps("main"), Seed: op.Seed, NeedCreds: true, CredsElsewhere: !haveCreds, GitCfg: ad.cfg, ExpectFailStep: -1,
+			Cfg: srvCfg{Verify: true, ActionHeader: hdr, HrefQuery: richQuery, AuthMode: am}}
+		sp.Case = fmt.Sprintf("authenticated/%s/authenticated=%s/action-authorization=%v/%s/credentials-available=%v/%s", op.Name, am, withAuth, ad.name, haveCreds, set)
+		return runSpec(sp)
+	}})
+
 	// ---- client-config: client settings that touch how an action is used, crossed with upload actions offering Content-Type / Transfer-Encoding
 	type ccfg struct{ name, cfg string }
 	ccfgs := []ccfg{
@@ -1110,8 +1178,9 @@ func TestVerifC18(t *testing.T) {
 	c := vx.NewCheck("C18", "exploration")
 	c.Rule = "designed scenario set enumerated as full cartesian products per part (names: op x branch name x file set; modes: op x server behaviour x file set x branch; " +
 		"locks: command sequence x path set x page size x cursor style x id style x branch; hash-algo: op x algorithm x transfer; " +
+		"authenticated: `authenticated` member of the batch response entries (true / false / omitted) x action offers an Authorization header or none x lfs.<url>.access (unset / basic for the storage and verify URL prefixes / basic for the API URL) x credential helper holds credentials for the host or not x op, no 401 anywhere; " +
 		"sizes: request path (every command form that constructs a transfer queue / lock client: pull, fetch [refs / --all / --recent / --refetch / --dry-run --json / --prune], checkout and clone through filter-process and through the one-shot smudge filter, git lfs smudge [+ lfs.remote.searchall], cat-file --filters, merge-driver, migrate export, prune --verify-remote [--verify-unreachable / --dry-run / --when-unverified=continue / configured], lfs clone, push [refs / --all / --stdin / --object-id / --dry-run / lfs.allowincompletepush], pre-push by hand, git push, hooks) " +
-		"x size class of the hand-written pointers committed in the history (0 with a non-empty oid, 1, 2^31, 2^53+1, 2^63-1, all five; thorough: seven further boundary values) x server variant x client transfer configuration; " +
+		"x size class of the hand-written pointers committed in the history (0 with a non-empty oid, 1, 2^31, 2^53+1, 2^63-1, all five, and the decimals 2^63 / 2^64-1 / 2^64 beyond int64 together; thorough: seven further boundary values and the three beyond-int64 decimals one by one) x server variant x client transfer configuration; " +
 		"transfer-seq: every sequence of transfers named by the successive batch responses of ONE transfer queue (member omitted / basic / tus / a custom transfer agent program; length 2, thorough 3) x how the queue comes to send several batch requests (batch size 1; re-batch after a retriable 403 from the storage endpoint on the first request / on the data request) x op, hrefs unique per response; " +
 		"rewrite: alias class of a url.<base>.insteadOf rule (prefix of the storage hrefs / of the verify href / of the API URL / of everything on the host) x rule kind (insteadOf, pushInsteadOf, both with different bases) x lfs.transfer.enablehrefrewrite (unset, false, true) x rewrite target x transfer x op) " +
 		"plus, for each canonical valid batch / lock response, " +
@@ -1122,6 +1191,8 @@ func TestVerifC18(t *testing.T) {
 		"HTTP only (no SSH / pure-SSH transfer); the tus adapter and a custom transfer agent are in use only in parts transfer-seq and rewrite (elsewhere they are at most advertised and the server selects basic)",
 		"part transfer-seq: the custom transfer agent is a scripted program (this test binary) that uses exactly the action git-lfs hands it and marks its requests with a header; the tus requirements checked are those of the tus.io core protocol 1.0.0 (Tus-Resumable on every request, PATCH with Upload-Offset = the offset the server reported and Content-Type application/offset+octet-stream), which docs/api/README.md names as the upload-only tus adapter",
 		"part rewrite: where the LFS API itself is addressed (lfs.url resolved through url.*.insteadOf) is not judged, only recognised; with lfs.transfer.enablehrefrewrite = true both the offered href and its documented rewriting are accepted for upload / download / verify actions (the documentation does not say whether the verify callback is rewritten)",
+		"part authenticated: an entry marked authenticated:true offers its actions for use with exactly the href and header it gives (batch.md: only 'if omitted or false, Git LFS will attempt to find credentials for this URL'); an Authorization header that no offer of the href contained is judged only when every offer of that href was marked authenticated:true and no action endpoint answered 401 in the execution; credentials added for authenticated false / omitted are allowed",
+		"part sizes, classes beyond int64: a blob whose size field is 2^63, 2^64-1 or 2^64 is not a pointer git-lfs can represent; nothing is demanded about what git-lfs does with it except that no request names an object with a negative / non-integer size or with a size nobody asked with (no size is recorded for such an oid)",
 		"the fake server is on loopback http://127.0.0.1; TLS, proxies, redirects and credential routing are C10's subject",
 		"ref names are the current branch without upstream configuration, so the documented server ref is refs/heads/<branch>",
 		"file names are valid UTF-8 (JSON cannot carry other byte strings)",
